@@ -1777,7 +1777,9 @@ pub fn run_client_retry(cfg: &ScenCfg, out: &mut RunOut) {
         let (tc, _) = match it.next() {
             Some((t, MState::Connecting)) => (*t, ()),
             other => {
-                out.violate("C14", "tls_retry_sequence", format!("{}: step {} expected Connecting, listener has {:?}; full log {:?}", desc, step_i, other, st));
+                let d = format!("{}: step {} expected Connecting, listener has {:?}; full log {:?}", desc, step_i, other, st);
+                out.violate("C14", "tls_retry_sequence", d.clone());
+                out.violate("C13", "tls_listener_sequence", d);
                 ok = false;
                 break 'steps;
             }
@@ -1793,7 +1795,9 @@ pub fn run_client_retry(cfg: &ScenCfg, out: &mut RunOut) {
                 match it.next() {
                     Some((_, MState::Connected)) => {}
                     other => {
-                        out.violate("C14", "tls_retry_sequence", format!("{}: step {} ({:?}) expected Connected, got {:?}; full log {:?}", desc, step_i, step, other, st));
+                        let d = format!("{}: step {} ({:?}) expected Connected, got {:?}; full log {:?}", desc, step_i, step, other, st);
+                        out.violate("C14", "tls_retry_sequence", d.clone());
+                        out.violate("C13", "tls_listener_sequence", d);
                         ok = false;
                         break 'steps;
                     }
@@ -1814,6 +1818,10 @@ pub fn run_client_retry(cfg: &ScenCfg, out: &mut RunOut) {
                 match it.next() {
                     Some((t, MState::WaitAfterFailedConnect(d))) if *d == want => (*t, *d),
                     other => {
+                        if !matches!(other, Some((_, MState::WaitAfterFailedConnect(_)))) {
+                            // not a wait at all: the path itself is illegal (e.g. Connected announced before the handshake)
+                            out.violate("C13", "tls_listener_sequence", format!("{}: step {} ({:?}) must be followed by WaitAfterFailedConnect, listener has {:?}; full log {:?}", desc, step_i, step, other, st));
+                        }
                         out.violate("C14", "tls_retry_delay", format!("{}: step {} ({:?}) expected WaitAfterFailedConnect({}), got {:?}; full log {:?}", desc, step_i, step, want, other, st));
                         ok = false;
                         break 'steps;
